@@ -148,7 +148,7 @@ class Run:
         self.cov['transitions'] += st['generated']
         log('[model] %s/%s: %d distinct states, %d transitions, %.1fs%s' % (
             module, name, st['distinct'], st['generated'], time.time() - t,
-            (' VIOLATION of ' + viol) if viol else ''))
+            (' - TLC reports a counterexample to ' + viol) if viol else ''))
         if viol is None and not tlc_completed(out):
             tail = '\n'.join(out.splitlines()[-30:])
             log(tail)
